@@ -8,6 +8,12 @@ impl SrtlaConnection {
     /// Register a packet as in-flight. O(1) insert.
     #[inline]
     pub fn register_packet(&mut self, seq: i32, send_time_ms: u64) {
+        // A sequence at or below the cumulative-ACK watermark (late retransmission,
+        // re-routed copy) must still be retired by the next cumulative ACK: pull the
+        // watermark back below it so the range/retain in `handle_srt_ack` covers it.
+        if seq <= self.highest_acked_seq {
+            self.highest_acked_seq = seq.saturating_sub(1);
+        }
         self.packet_log.insert(seq, send_time_ms);
         self.in_flight_packets = self.packet_log.len() as i32;
     }
